@@ -156,7 +156,8 @@ def run(run):
     run.log("catalogue: %d objects" % len(cat))
     events, owners = c01.collect(run, cat, rng, quick, object_events)
     run.log("%d events recorded" % len(events))
-    mism = tv.validate(run, "Trace_BlockCode", events, name="TV C04", timeout=3000, count_trace=False, heap="12g")
+    mism = tv.validate_sharded(run, "Trace_BlockCode", events, (lambda e: e["ev"] == "Construct"), name="TV C04", max_events=30000, jobs=8)
+    run.traces -= 1        # traces are counted per constructed object below
     run.traces += len(cat)
     seen = set()
     for m in mism:
